@@ -12,8 +12,9 @@ if ! git -C "$REPO" apply "$PATCH" 2>/dev/null; then
   else git -C "$REPO" reset -q; fi   # keep the change in the working tree only
 fi
 TIER="${SEED_TIER:-quick}"
+mkdir -p "${SEED_OUT:-/dev/shm/seed-out}/evidence" "${SEED_OUT:-/dev/shm/seed-out}/replays"   # evidence / replays of seeded runs never land in /verif
 for ID in "$@"; do
-  OUT=$(cd /verif && VERIF_REPO="$REPO" ./check "$ID" --tier "$TIER" 2>&1 | grep -v conda)
+  OUT=$(cd /verif && VERIF_OUT="${SEED_OUT:-/dev/shm/seed-out}" VERIF_REPO="$REPO" ./check "$ID" --tier "$TIER" 2>&1 | grep -v conda)
   rc=$?
   n=$(echo "$OUT" | grep -c '^VIOLATION')
   keys=$(echo "$OUT" | grep -E "^  $ID/" | sed -E 's/^  ([^ ]+): .*/\1/' | sort -u | head -4 | tr '\n' ' ')
